@@ -3,6 +3,7 @@
 // from /repo/src/syntax/binary.rs on every run; everything outside the markers is specification.
 use vstd::prelude::*;
 use std::rc::Rc;
+use vstd::std_specs::iter::IteratorSpec;
 verus! {
 
 // stand-in for the AST: Binary and PrefixUnary as in /repo (source facts), every leaf kind
@@ -16,18 +17,23 @@ pub enum SmartCalcAstType {
 pub type AstResult = Result<SmartCalcAstType, (&'static str, u16, u16)>;
 
 // stand-in for SyntaxParser: its cursor is a Cell<usize> and its tokens live behind references, both
-// outside Verus.  ASSUMED contract of match_operator: a returned operator is one of the requested ones
-// (its body is `for operator in operators { if self.check_operator(*operator) { ..; return Some(*operator) } } None`)
+// outside Verus, so get_index / set_index / check_operator / consume_token are external_body (no
+// contract is assumed for them); match_operator is extracted and proved against them
 pub struct SyntaxParser { pub idx: usize }
 impl SyntaxParser {
     #[verifier::external_body]
     pub fn get_index(&self) -> usize { 0 }
     #[verifier::external_body]
     pub fn set_index(&self, index: usize) { }
+    // "the token under the cursor is Operator(c)" at the time match_operator is entered (uninterpreted)
+    pub uninterp spec fn at_operator(&self, c: char) -> bool;
     #[verifier::external_body]
-    fn match_operator(&self, operators: &[char]) -> (r: Option<char>)
-        ensures r.is_some() ==> operators@.contains(r.unwrap()),
-    { None }
+    fn check_operator(&self, operator: char) -> (r: bool)
+        ensures r == self.at_operator(operator),
+    { false }
+    #[verifier::external_body]
+    pub fn consume_token(&self) { }
+/*@FN SyntaxParser::match_operator*/
 }
 
 // every level of the ladder promises: what it returns is empty or an AST "of its level"
